@@ -134,16 +134,26 @@ class ExprMixin:
     # ------------------------------------------------------------- displays
     def _display(self, kind, elts, n, st, frame):
         vals = []
+        positions = []          # the display position by position, None as soon as a starred part has unknown length
         for e in elts:
             if isinstance(e, ast.Starred):
-                vals.append(elem_of(self.eval(e.value, st, frame)))
+                sv = self.eval(e.value, st, frame)
+                if sv.items is not None and positions is not None:
+                    positions.extend(sv.items)          # `[a, *rest]` with rest known position by position
+                    vals.extend(sv.items)
+                    continue
+                vals.append(elem_of(sv))
+                positions = None
             else:
-                vals.append(self.eval(e, st, frame))
+                v = self.eval(e, st, frame)
+                vals.append(v)
+                if positions is not None:
+                    positions.append(v)
+        vals = [v for v in vals if v is not None]
         elem = join_all(vals) if vals else None
         if elem is not None:
             elem = replace(elem, const=NOCONST)
-        items = tuple(vals) if kind in ("tuple", "list") and len(vals) <= 8 and \
-            not any(isinstance(e, ast.Starred) for e in elts) else None
+        items = tuple(positions) if kind in ("tuple", "list") and positions is not None and len(positions) <= 8 else None
         quals = frozenset({EMPTYQ}) if not vals else frozenset()
         const = NOCONST
         if kind in ("tuple", "list") and vals and all(v.has_const() for v in vals) and len(vals) <= 16:
@@ -446,6 +456,11 @@ class ExprMixin:
         idx = self.eval(n.slice, st, frame)
         res = self.subscript_value(base, idx, n, st, frame)
         self.ev(frame, st, "subscript", n, recv=base, args=(idx,), result=res)
+        # remembered for `X[k].append(v)`: which cell receives v depends on k (see CallMixin.mutate)
+        sel = getattr(frame, "sel_deps", None)
+        if sel is None:
+            sel = frame.sel_deps = {}
+        sel[id(n)] = all_deps(idx)
         return res
 
     def subscript_value(self, base, idx, n, st, frame) -> AV:
